@@ -193,7 +193,23 @@ class Unit:
         text = '\n'.join(out)
         if '// ---- vx:inline crate' in text:
             text = self._finalize_inlined(text)
-        return text
+        return self._dedupe_root_uses(text)
+
+    @staticmethod
+    def _dedupe_root_uses(text):
+        """template fragments may repeat the same root-level `use crate::..;` line: keep the first (E0252 otherwise)"""
+        seen, out, inl = set(), [], 0
+        for l in text.split('\n'):
+            if l.startswith('// ---- vx:inline crate'):
+                inl += 1
+            elif l.startswith('// ---- vx:end-inline'):
+                inl -= 1
+            if inl == 0 and re.match(r'use crate::[\w:#]+(\s+as\s+\w+)?;\s*$', l):
+                if l.strip() in seen:
+                    continue
+                seen.add(l.strip())
+            out.append(l)
+        return '\n'.join(out)
 
     def _finalize_inlined(self, text):
         """inside inlined crates every fn that carries no contract of this unit becomes external_body:
